@@ -92,6 +92,17 @@ var typedFamilies = []family{
 	{"binary-binary", inTypes(func(sio.Binary, sio.Binary) {})},
 	{"struct-with-nil-pointer-and-interface-fields", inTypes(func(structNilArg) {})},
 	{"pointer-to-struct-with-nil-fields", inTypes(func(*structNilArg) {})},
+	// maps whose element type is itself a map type (a placeholder one level below is not assignable to it)
+	{"map-of-maps", inTypes(func(map[string]map[string]any) {})},
+	{"map-of-named-maps", inTypes(func(map[string]namedObj) {})},
+	{"slice-of-maps-of-maps", inTypes(func([]map[string]map[string]any) {})},
+	{"struct-with-map-of-maps", inTypes(func(structMapMapArg) {})},
+}
+
+type namedObj map[string]any
+
+type structMapMapArg struct {
+	A map[string]map[string]any `json:"a"`
 }
 
 func familiesFor(typ parser.PacketType) []family {
